@@ -589,6 +589,11 @@ func runC07(c *Ctx) {
 	}
 	// ---- R5 ----
 	checkValidity(c)
+	// a failed removal surfaces as an error of the operation (a swallowed one leaves the expired certificate listed and
+	// usable): the error discipline of the shim package (C10.R5), imported
+	if m.Server != nil && len(m.problems) == 0 {
+		c.WithRules(map[string]string{"R5.errors": "R3.wiring"}, func() { c10Errors(c, m) })
+	}
 	// ---- R7 ----
 	checkCertTypes(c, "R7.certtypes")
 }
